@@ -11,7 +11,7 @@ Lemma base_case : forall st b st', rstep st (Base b) = Some st' ->
   gone st && is_admin b = false /\
   exists st1, base_on st1 b = Some st' /\
     cells st1 = cells st /\ registered st1 = registered st /\ fresh st1 = fresh st /\ gone st1 = gone st /\
-    (holds st1 = holds st \/
+    ((reg_of b = None /\ holds st1 = holds st) \/
      exists c, b = CReg c /\ gone st = false /\ pcs (cells st (holds st c)) c = Idle /\
                holds st1 = upd (holds st) c (registered st)).
 Proof.
@@ -75,7 +75,7 @@ Proof.
     destruct e as [b| | | |c]; simpl erase.
     + destruct (base_case _ _ _ E) as [GA [s0 [E0 [C0 [R0 [F0 [G0 Hh]]]]]]].
       assert (HH0 : forall c, holds s0 c = 0).
-      { intro c. destruct Hh as [Hh|[c1 [_ [_ [_ Hh]]]]]; rewrite Hh; [apply HH|].
+      { intro c. destruct Hh as [[_ Hh]|[c1 [_ [_ [_ Hh]]]]]; rewrite Hh; [apply HH|].
         unfold upd. destruct (Nat.eqb c c1); [exact HR|apply HH]. }
       assert (T : target s0 b = 0).
       { unfold target. destruct (actor b); [apply HH0|rewrite R0; exact HR]. }
@@ -219,4 +219,191 @@ Proof.
     destruct (Nat.eq_dec k (holds st c)) as [->|Hne2].
     + rewrite upd_same. cbn. auto.
     + rewrite upd_other by assumption. auto.
+Qed.
+
+(** * PAUSE holds after any reload history (the session looks its pool up before it waits) *)
+
+Definition held_pc (p : cpc) (g : nat) : Prop := p = Reg g \/ p = Loaded g true \/ p = Waiting g.
+
+(** Steps that could legitimately let client [c] through, or start another passage of it. *)
+Definition quiet (c : client) (e : rev) : Prop :=
+  e <> Base AStore /\ e <> ReloadRemove /\ e <> ReloadFresh /\ e <> Base (CReg c).
+
+Definition mid_inv (st : rstate) : Prop :=
+  forall k, apc (cells st k) = AMidResume -> paused (cells st k) = false.
+
+Lemma mid_step : forall s e s', (apc s = AMidResume -> paused s = false) -> step s e = Some s' ->
+  apc s' = AMidResume -> paused s' = false.
+Proof.
+  intros s e s' I H. destruct (step_gen_inv _ _ _ _ H) as [m [Hm ->]].
+  inversion Hm; subst; cbn; auto; try discriminate.
+  destruct H0 as [H0|H0]; [|discriminate]. intro E. congruence.
+Qed.
+
+Lemma mid_inv_rstep : forall st e st', mid_inv st -> rstep st e = Some st' -> mid_inv st'.
+Proof.
+  intros st e st' I H k. destruct e as [b| | | |c].
+  - destruct (base_case _ _ _ H) as [_ [s1 [E1 [C1 _]]]].
+    destruct (base_on_inv _ _ _ E1) as [s' [Es [Cs _]]]. rewrite Cs, C1.
+    destruct (Nat.eq_dec k (target s1 b)) as [->|Hne].
+    + rewrite upd_same. rewrite C1 in Es. eapply mid_step; [apply I|exact Es].
+    + rewrite upd_other by assumption. apply I.
+  - unfold rstep, rstep_gen in H. inversion H; subst. apply I.
+  - unfold rstep, rstep_gen in H. inversion H; subst. cbn. apply I.
+  - unfold rstep, rstep_gen in H. destruct (gone st); [discriminate|].
+    destruct (run (cells st (registered st)) [AStore; ANotify]) as [s'|] eqn:Er; [|discriminate].
+    inversion H; subst st'; clear H. cbn.
+    destruct (Nat.eq_dec k (registered st)) as [->|Hne].
+    + rewrite upd_same. intros _. apply (resume_result _ _ Er).
+    + rewrite upd_other by assumption. apply I.
+  - unfold rstep, rstep_gen in H. destruct (gone st); [inversion H; subst; apply I|].
+    destruct (Nat.eqb (holds st c) (registered st)); [inversion H; subst; apply I|].
+    destruct (pcs (cells st (holds st c)) c); try discriminate.
+    inversion H; subst st'; clear H. cbn.
+    destruct (Nat.eq_dec k (registered st)) as [->|Hne].
+    + rewrite upd_same. cbn. apply I.
+    + rewrite upd_other by assumption.
+      destruct (Nat.eq_dec k (holds st c)) as [->|Hne2].
+      * rewrite upd_same. cbn. apply I.
+      * rewrite upd_other by assumption. apply I.
+Qed.
+
+Lemma rrun_cons : forall s e l, rrun s (e :: l) = match rstep s e with Some s' => rrun s' l | None => None end.
+Proof. reflexivity. Qed.
+
+Lemma mid_inv_reach : forall l s st, mid_inv s -> rrun s l = Some st -> mid_inv st.
+Proof.
+  induction l as [|e l IH]; intros s st I H; unfold rrun in H; simpl in H.
+  - inversion H; subst; exact I.
+  - fold rstep in H. destruct (rstep s e) as [s1|] eqn:E; [|discriminate].
+    eapply IH; [eapply mid_inv_rstep; eauto|exact H].
+Qed.
+
+Lemma mid_inv_init : mid_inv rinit.
+Proof. intros k H. cbn in H. discriminate. Qed.
+
+Lemma own_step_held : forall s b s' c, actor b = Some c -> b <> CReg c -> step s b = Some s' ->
+  paused s = true -> held_pc (pcs s c) (gen s) -> held_pc (pcs s' c) (gen s).
+Proof.
+  intros s b s' c A N H P Hpc. unfold held_pc in *.
+  destruct b as [d|d|d|d|d| | |]; cbn in A; try discriminate; inversion A; subst d; clear A;
+    unfold step, step_gen, step_core in H;
+    destruct Hpc as [X|[X|X]]; rewrite X in H; try discriminate;
+    try (exfalso; apply N; reflexivity);
+    try (rewrite Nat.ltb_irrefl in H; discriminate);
+    inversion H; subst; clear H; cbn; rewrite upd_same; rewrite ?P; auto.
+Qed.
+
+(** The situation of a client held by a PAUSE of the registered pool. *)
+Definition held_by_pause (c : client) (st : rstate) : Prop :=
+  holds st c = registered st /\ gone st = false /\
+  paused (cells st (registered st)) = true /\ apc (cells st (registered st)) = AIdle /\
+  held_pc (pcs (cells st (registered st)) c) (gen (cells st (registered st))).
+
+Lemma held_step : forall c st e st', held_by_pause c st -> quiet c e -> rstep st e = Some st' ->
+  held_by_pause c st'.
+Proof.
+  intros c st e st' [Hh [Hg [Hp [Ha Hpc]]]] [Q1 [Q2 [Q3 Q4]]] H. unfold held_by_pause.
+  destruct e as [b| | | |d].
+  - destruct (base_case _ _ _ H) as [_ [s1 [E1 [C1 [R1 [F1 [G1 Hh1]]]]]]].
+    destruct (base_on_inv _ _ _ E1) as [s' [Es [Cs [Rs [Hs [_ Gs]]]]]].
+    assert (Hc1 : holds s1 c = registered st).
+    { destruct Hh1 as [[_ E]|[c1 [Eb [_ [_ E]]]]]; rewrite E; [exact Hh|].
+      rewrite upd_other; [exact Hh|]. intro X; subst c1. apply Q4. rewrite Eb. reflexivity. }
+    rewrite Rs, R1, Hs, Gs, G1, Cs, C1. rewrite C1 in Es.
+    split; [exact Hc1|]. split; [exact Hg|].
+    destruct (Nat.eq_dec (registered st) (target s1 b)) as [T|T].
+    + rewrite T, upd_same. rewrite <- T in Es.
+      destruct (actor b) as [d|] eqn:A.
+      * destruct (client_step_pg _ _ _ d A Es) as [P1 [P2 P3]]. rewrite P1, P2, P3.
+        split; [exact Hp|]. split; [exact Ha|].
+        destruct (Nat.eq_dec d c) as [->|Hdc].
+        -- (* the client's own step *)
+           apply (own_step_held _ b _ c A); auto.
+           intro X. apply Q4. rewrite X. reflexivity.
+        -- rewrite (step_other_actor _ _ _ _ c Es); [exact Hpc|]. rewrite A. intro X; inversion X; contradiction.
+      * (* admin step on the registered pool *)
+        destruct (step_gen_inv _ _ _ _ Es) as [m [Hm ->]].
+        inversion Hm; subst; cbn in *; try discriminate.
+        -- auto.
+        -- exfalso. apply Q1. reflexivity.
+        -- congruence.
+    + rewrite upd_other by assumption. auto.
+  - unfold rstep, rstep_gen in H. inversion H; subst. auto.
+  - exfalso. apply Q3. reflexivity.
+  - exfalso. apply Q2. reflexivity.
+  - unfold rstep, rstep_gen in H. rewrite Hg in H.
+    destruct (Nat.eqb (holds st d) (registered st)) eqn:Eq; [inversion H; subst; auto|].
+    destruct (pcs (cells st (holds st d)) d); try discriminate.
+    inversion H; subst st'; clear H. cbn.
+    assert (Hdc : d <> c). { intro X; subst d. rewrite Hh, Nat.eqb_refl in Eq. discriminate. }
+    rewrite upd_same. cbn.
+    split; [rewrite upd_other by auto; exact Hh|]. split; [reflexivity|].
+    split; [exact Hp|]. split; [exact Ha|]. rewrite upd_other by auto. exact Hpc.
+Qed.
+
+Lemma held_run : forall c l st st', held_by_pause c st -> Forall (quiet c) l -> rrun st l = Some st' ->
+  held_by_pause c st'.
+Proof.
+  induction l as [|e l IH]; intros st st' J Q H; unfold rrun in H; simpl in H.
+  - inversion H; subst; exact J.
+  - fold rstep in H. destruct (rstep st e) as [s1|] eqn:E; [|discriminate].
+    inversion Q; subst. eapply IH; [eapply held_step; eauto|assumption|exact H].
+Qed.
+
+(** After ANY reload history, a client that starts a gate passage (needs a checkout) while the
+    registered pool is paused is held for as long as no RESUME / removal / replacement happens —
+    whatever pool object its session resolved in the past. *)
+Lemma pause_holds_after_reloads : forall l0 s0 c l st,
+  rrun rinit l0 = Some s0 -> gone s0 = false -> paused (cells s0 (registered s0)) = true ->
+  rrun s0 (Base (CReg c) :: l) = Some st -> Forall (quiet c) l ->
+  held_by_pause c st /\ pcs (cells st (holds st c)) c <> Passed.
+Proof.
+  intros l0 s0 c l st H0 G0 P0 H Q.
+  assert (I0 : mid_inv s0) by (eapply mid_inv_reach; [apply mid_inv_init|exact H0]).
+  rewrite rrun_cons in H.
+  destruct (rstep s0 (Base (CReg c))) as [s1|] eqn:E; [|discriminate].
+  assert (J1 : held_by_pause c s1).
+  { destruct (base_case _ _ _ E) as [_ [x [E1 [C1 [R1 [F1 [G1 Hh1]]]]]]].
+    destruct Hh1 as [[X _]|[c1 [Eb [_ [Hidle Hh1]]]]]; [cbn in X; discriminate|].
+    inversion Eb; subst c1.
+    destruct (base_on_inv _ _ _ E1) as [s' [Es [Cs [Rs [Hs [_ Gs]]]]]].
+    assert (T : target x (CReg c) = registered s0).
+    { unfold target. cbn. rewrite Hh1, upd_same. reflexivity. }
+    rewrite T, C1 in Es. unfold held_by_pause.
+    rewrite Rs, R1, Hs, Hh1, Gs, G1, Cs, C1, T, !upd_same.
+    destruct (client_step_pg _ (CReg c) _ c eq_refl Es) as [P1 [P2 P3]]. rewrite P1, P2, P3.
+    split; [reflexivity|]. split; [exact G0|]. split; [exact P0|]. split.
+    - destruct (apc (cells s0 (registered s0))) eqn:A; [reflexivity|].
+      rewrite (I0 _ A) in P0. discriminate.
+    - destruct (step_gen_inv _ _ _ _ Es) as [m [Hm ->]]. inversion Hm; subst. cbn.
+      rewrite upd_same. left. reflexivity. }
+  pose proof (held_run c l s1 st J1 Q H) as J.
+  split; [exact J|].
+  destruct J as [Hh [_ [_ [_ Hpc]]]]. rewrite Hh.
+  destruct Hpc as [X|[X|X]]; rewrite X; discriminate.
+Qed.
+
+(** The code before the repair (the session waits on the pool object it resolved earlier,
+    [rstep_gen false]): the F36 schedule — the user's pool is removed by one RELOAD and added again
+    by another, PAUSE, and the old session's statement goes straight through. *)
+Definition f36_history : list rev := [ReloadRemove; ReloadFresh; Base APause].
+Definition f36_rest : list rev := [Base (CLoad 0); Base (CDecide 0)].
+
+Lemma stale_lookup_refuted : exists s0 st,
+  rrun_gen false rinit f36_history = Some s0 /\ gone s0 = false /\ paused (cells s0 (registered s0)) = true /\
+  rrun_gen false s0 (Base (CReg 0) :: f36_rest) = Some st /\ Forall (quiet 0) f36_rest /\
+  pcs (cells st (holds st 0)) 0 = Passed /\ paused (cells st (registered st)) = true /\
+  holds st 0 <> registered st.
+Proof.
+  destruct (rrun_gen false rinit f36_history) as [s0|] eqn:E0; [|vm_compute in E0; discriminate].
+  destruct (rrun_gen false s0 (Base (CReg 0) :: f36_rest)) as [st|] eqn:E1;
+    [|vm_compute in E0; inversion E0; subst; vm_compute in E1; discriminate].
+  exists s0, st. split; [reflexivity|].
+  vm_compute in E0. inversion E0; subst; clear E0.
+  vm_compute in E1. inversion E1; subst; clear E1.
+  split; [reflexivity|]. split; [reflexivity|]. split; [reflexivity|].
+  split.
+  { repeat constructor; discriminate. }
+  vm_compute. repeat split. discriminate.
 Qed.
